@@ -1237,6 +1237,7 @@ func concVersionMid(maxpend int) string {
 	nbefore := len(s.conn.frames())
 	// release whatever the implementation was handed, oldest first
 	done := map[*concReq]bool{}
+	last := time.Now()
 	deadline := time.Now().Add(100 * time.Millisecond)
 	for time.Now().Before(deadline) {
 		s.mu.Lock()
@@ -1256,7 +1257,11 @@ func concVersionMid(maxpend int) string {
 		s.mu.Unlock()
 		for _, cr := range pend {
 			done[cr] = true
+			last = time.Now()
 			cr.released <- concAction{answers: 1, payload: []byte(fmt.Sprintf("v-%d", cr.req.Tc.Offset))}
+		}
+		if len(done) >= 2 && time.Since(last) > 10*time.Millisecond {
+			break // A and C released; B is cancelled (or, were it not, would have been handed over by now)
 		}
 		time.Sleep(100 * time.Microsecond)
 	}
